@@ -394,6 +394,8 @@ def _emit(e, out, ctx):
     else:
         for c in hir_children(e):
             _emit(c, out, ctx)
+        if k in ("call", "mcall"):
+            out.append(Event("call", e, ctx))
 
 
 def _emit_block(bl, out, ctx):
@@ -582,6 +584,33 @@ def _pick_loop(f):
         if best:
             return lp, best[1], best[2], best[3]
     return None
+
+
+def reexamined_after(h, call, lid):
+    """h calls, in a loop, a function that closes the hole in slot `lid` (a local of h) by shifting the following entries
+    back: the entry that was shifted into the slot must be looked at by the next iteration, so on the way from the call to
+    the end of the iteration the local must not be assigned. -> ('ok'|'bad'|'undecided', message)"""
+    loops = [x for x in hir_walk(h.hir["body"]) if x.get("k") == "loop" and any(y is call for y in hir_walk(x))]
+    if not loops:
+        return None
+    lp = loops[-1]          # innermost (pre-order: the last one that contains the call)
+    try:
+        scope = LoopScope(h, lp)
+    except Unknown as u:
+        return "undecided", "loop not understood: %s" % u
+    p = scope.position("call", call)
+    if p is None:
+        return "undecided", "the call is not in the loop body proper"
+    cctx = scope.it[p].ctx
+    later = [ev for ev in scope.it[p + 1:] if ev.kind == "def" and ev.lid == lid]
+    sure = [ev for ev in later if ev.ctx == cctx[:len(ev.ctx)]]
+    if sure:
+        return "bad", ("after the hole in the current slot was closed (the next entry of the probe chain may have been shifted into "
+                       "it) the walk moves on (line %s): that entry is never offered to the predicate - it is kept although it "
+                       "should have been removed" % sure[0].node.get("ln"))
+    if later:
+        return "undecided", "the slot variable is assigned on some paths after the hole was closed"
+    return "ok", "after a removal the walk stays on the slot, so the entry shifted into it is examined next"
 
 
 def pick_loop(f):
